@@ -7,7 +7,7 @@ from .. import cutfind
 from ..core import call_real
 
 ID = "C08"
-LEAN_MODULE = "CKT.Props.C08Prune"
+LEAN_MODULE = "CKT.Props.C08ConvW"
 THEOREMS = [
     # T08.4 at specification level (gate cuts): useless cuts can be removed without changing the subcircuits or raising the overhead
     "CKT.C08Spec.conn_prune", "CKT.C08Spec.cost_prune_le", "CKT.C08Spec.prune_no_useless", "CKT.C08Spec.useless_cuts_removable",
@@ -30,7 +30,12 @@ THEOREMS = [
     "CKT.C08Wire.phi_fibre", "CKT.C08Wire.sim_step", "CKT.C08Wire.Drop.conn_fwd", "CKT.C08Wire.Drop.conn_bwd", "CKT.C08Wire.countP_le_of_inj",
     "CKT.C08Wire.Drop.feasible", "CKT.C08Wire.drop_left", "CKT.C08Wire.drop_right", "CKT.C08Wire.drop_both1", "CKT.C08Wire.drop_both2",
     "CKT.C08Wire.gcut_conn", "CKT.C08Wire.costUpTo_mono", "CKT.C08Wire.mu_lt", "CKT.C08Wire.improve", "CKT.C08Wire.prune_exists",
-    "CKT.C08Wire.optimize_min_over_all_plans"] + ["CKT.C08." + t for t in [
+    "CKT.C08Wire.optimize_min_over_all_plans",
+    # converse with wire cuts (Props/C08ConvW): every state of the tree is a plan prefix (wire map = the specification's bookkeeping, classes = wires joined
+    # so far, widths = class sizes, cost = product of the factors); the returned state is a width-feasible plan; flag => the reported overhead IS the minimum
+    "CKT.C08Wire.child_generic", "CKT.C08Wire.child_app", "CKT.C08Wire.child_gcut", "CKT.C08Wire.child_left", "CKT.C08Wire.child_right",
+    "CKT.C08Wire.child_both", "CKT.C08Wire.child_linkW", "CKT.C08Wire.desc_linkW", "CKT.C08Wire.goal_feasibleW",
+    "CKT.C08Wire.optimize_result_is_planW", "CKT.C08Wire.optimize_is_minimumW"] + ["CKT.C08." + t for t in [
     "desc_cost", "insertKey_sorted", "put1_spec", "put_spec", "lb_of_head", "lb_of_empty", "updMin_fields", "updUb_fields",
     "good_flag_of_popped", "loop_good", "pass_good", "flag_sound", "actCost_ge_one", "child_cost", "cut_mono", "firstMin_spec",
     "passes_inv", "startSearch_good", "optimize_flag_sound",
